@@ -1,7 +1,7 @@
 """Library models: iterators (lazy python objects following the std adapter contracts), slices, Vec."""
 import z3
 from values import *
-from interp import model, MODELS, runtime_type, seq_len, short, simp
+from interp import model, MODELS, runtime_type, seq_len, short, simp, has_wide
 from models_core import (deref, as_items, as_slice, mk_option, char_of, explode, val_eq, val_cmp, ordering, resolve_targ,
                          default_of, is_param_like, push_char, elem_index, byte_offset, conv_into)
 from rtypes import base_name, type_str, subst, int_info, parse_type
@@ -848,6 +848,29 @@ def m_fill(I, c, args, fr):
         d.back[i] = args[1]
     return UNIT
 
+def range_offsets(I, r, items):
+    """(lo, hi) element indices of a Range* Adt of byte offsets over elements of varying byte length"""
+    from interp import resolve_offset
+    t = r.ty
+    f = r.fields
+    one = lambda x: x + 1
+    lo, hi = 0, len(items)
+    if t in ('RangeFrom', 'Range', 'RangeInclusive'):
+        lo = resolve_offset(I, items, f[0])
+    if t == 'RangeTo':
+        hi = resolve_offset(I, items, f[0])
+    elif t == 'Range':
+        hi = resolve_offset(I, items, f[1])
+    elif t == 'RangeInclusive':
+        hi = resolve_offset(I, items, f[1] + 1)
+    elif t == 'RangeToInclusive':
+        hi = resolve_offset(I, items, f[0] + 1)
+    elif t not in ('RangeFull', 'RangeFrom'):
+        raise Unsupported('range type ' + t)
+    if lo is None or hi is None or lo > hi:
+        return None
+    return lo, hi
+
 def range_bounds(r, n):
     """(lo, hi) of a Range* Adt applied to length n, or None if out of range"""
     t = r.ty
@@ -892,6 +915,12 @@ def m_index(I, c, args, fr):
                 if rb is None:
                     raise Panic('str slice index out of range')
                 return s.sub(elem_index(items, rb[0]), elem_index(items, rb[1]))
+            items = s.items()
+            if has_wide(items) or any(is_sym(f) for f in i.fields):
+                rb = range_offsets(I, i, items)
+                if rb is None:
+                    raise Panic('range index out of range for slice')
+                return s.sub(rb[0], rb[1])
             rb = range_bounds(i, len(s))
             if rb is None:
                 raise Panic('range end index out of range for slice of length %d' % len(s))
